@@ -185,4 +185,39 @@ theorem call_err (w : Nat) (f : File) (e : Err) (h : current w f = .error e) :
     simp [current] at h
     simp [getAndIncrement, h]
 
+/-! ## the width enters `check_count` through the range check only -/
+
+theorem checkCount_width (w w' : Nat) (l : List Char) (v : Nat) (h : checkCount w l = .ok v) :
+    checkCount w' l = if v < 2 ^ w' then .ok v else .error .value := by
+  have hp : 0 < 2 ^ w' := Nat.two_pow_pos w'
+  unfold checkCount at h ⊢
+  simp only at h ⊢
+  split at h
+  · cases h
+  · rename_i hd
+    split at h
+    · cases h
+    · cases h
+      simp only [hd]
+      by_cases hv : parseNat (rstrip l) < 2 ^ w'
+      · have : ¬ parseNat (rstrip l) > 2 ^ w' - 1 := by omega
+        simp [hv, this]
+      · have : parseNat (rstrip l) > 2 ^ w' - 1 := by omega
+        simp [hv, this]
+
+/-- a file that a reader of width `w` accepts with value `v` is read as `v` by every width that `v` fits
+    and refused with `ValueError` by every other width -/
+theorem current_width (w w' : Nat) (f : File) (v : Nat) (h : current w f = .ok v) :
+    current w' f = if v < 2 ^ w' then .ok v else .error .value := by
+  cases f with
+  | none => simp [current] at h
+  | some s => exact checkCount_width w w' _ v (by simpa [current] using h)
+
+/-- `create_new` writes `"0\n"`: every width reads 0 -/
+theorem current_create (w : Nat) : current w create = .ok 0 := by
+  have h : create = some (render 0 ++ '\n' :: []) := by
+    rw [render]; simp [create, digitChar]
+  rw [h]
+  exact current_canon w 0 [] (Nat.two_pow_pos w)
+
 end SpVerif.SeqCount
